@@ -64,7 +64,8 @@ ROUTE_RULES = [
     '/s/x', '/s/xy', '/s/xyz', '/s',
     '/h/k/r', '/h/k/r2',
 ]
-HOOK_RULES = ['/', '/a', '/a/', '/a/b', '/a/:x', '/s/x', '/s', '/h', '/h/k', '/u/<id:int>', '/u/:id', '/zz']
+HOOK_RULES = ['/', '/a', '/a/', '/a/b', '/a/:x', '/s/x', '/s', '/h', '/h/k', '/u/<id:int>', '/u/:id', '/zz',
+              '/a/:other', '/u/<uid:int>', '/a/{z}']      # the same patterns under other parameter names
 BAD_RULES = ['/bad/<x', '/bad/<x:>>', '/bad/{:}']
 NAMES = ['n1', 'n2', 'n3']
 METHODS = ['GET', 'POST', ['GET', 'POST'], 'ANY', 'put', ['HEAD', 'DELETE']]
